@@ -167,6 +167,18 @@ func wfNeedsCycles(r *hx.Rng) string {
 		}
 	}
 	var b strings.Builder
+	if r.Chance(1, 3) {
+		// flow style: all job ids on ONE line (positions differ in the column only)
+		b.WriteString("on: push\njobs: {")
+		for k, i := range r.Perm(len(jobs)) {
+			if k > 0 {
+				b.WriteString(", ")
+			}
+			fmt.Fprintf(&b, "%s: {needs: [%s], runs-on: ubuntu-latest, steps: [{run: echo}]}", jobs[i].id, jobs[i].needs)
+		}
+		b.WriteString("}\n")
+		return b.String()
+	}
 	b.WriteString("on: push\njobs:\n")
 	for _, i := range r.Perm(len(jobs)) {
 		fmt.Fprintf(&b, "  %s:\n    needs: [%s]\n    runs-on: ubuntu-latest\n    steps:\n      - run: echo\n", jobs[i].id, jobs[i].needs)
